@@ -45,7 +45,7 @@ impl Decoder for Codec {
 
         let varint_len = src.len() - rest.len();
 
-        if varint_len > MAX_MESSAGE_SIZE {
+        if len > MAX_MESSAGE_SIZE {
             return Err(io::Error::other("Message too large"));
         }
 
